@@ -119,14 +119,18 @@ def snapshot_runlog(rig):
 
 
 def run_scenario(sym, tname: str, n_ticks: int, *, in1_steps=True, durations_symbolic=True, event_kinds=(),
-                 pcode: str | None = None, dt=0.1, collect_runlog=True, on_tick=None) -> tuple[Scenario, object]:
+                 pcode: str | None = None, dt=0.1, collect_runlog=True, on_tick=None, durations=None, event=None,
+                 fail_at=None) -> tuple[Scenario, object]:
     """Run one scenario; returns (Scenario, rig is closed).  `event_kinds`: subset of
        {"cancel", "force", "Stop", "Restart", "Pause", "Hold", ...control command names...}: at most one event, at a
        solver-chosen tick, target (for cancel/force) = solver-chosen index into the run log reported at that tick."""
     from openpectus.lang.exec.events import EventListener
     pc = pcode if pcode is not None else TEMPLATES[tname]
     sc = Scenario()
-    durations = {}
+    if durations is not None:
+        durations_symbolic = False          # caller supplies them (e.g. to run a baseline with the same values)
+    else:
+        durations = {}
     if durations_symbolic:
         for name in ("CmdA", "CmdB", "CmdC"):
             if name in pc:
@@ -138,12 +142,16 @@ def run_scenario(sym, tname: str, n_ticks: int, *, in1_steps=True, durations_sym
         a = sym.int("in1_up", 0, n_ticks)          # In1 becomes 1 at tick a ...
         b = sym.int("in1_down", 0, n_ticks + 1)    # ... and 0 again at tick b (b <= a: never 1)
     ev_kind = ev_tick = None
-    if event_kinds:
+    if event is not None:
+        ev_kind, ev_tick = event            # caller-supplied (kind, tick); kind may be "none"
+        if ev_kind == "none":
+            ev_tick = None
+    elif event_kinds:
         ev_kind = sym.choice("ev_kind", ["none"] + list(event_kinds))
         if ev_kind != "none":
             ev_tick = sym.int("ev_tick", 1, n_ticks - 1)
 
-    with engine_rig(sym, pc, durations=durations) as rig:
+    with engine_rig(sym, pc, durations=durations, fail_at=fail_at) as rig:
         e = rig.engine
 
         class L(EventListener):
